@@ -103,7 +103,12 @@ def dec(j, undef=None):
         if j["x"]:
             from tartiflette.types.exceptions.tartiflette import TartifletteError
             return TartifletteError(j["m"], extensions={k: dec(x) for k, x in j["e"]} or None)
-        return ValueError(j["m"])
+        # plain exceptions of several classes (same str() as the message; the engine may not treat one class specially), with or
+        # without constructor arguments (`raise ValueError` / a bare assert: empty args, empty message)
+        cls = {"TimeoutError": TimeoutError, "AssertionError": AssertionError, "NotImplementedError": NotImplementedError,
+               "RuntimeError": RuntimeError, "LookupError": LookupError, "OSError": OSError}.get(j.get("cls"), ValueError)
+        if j.get("cls") == "KeyErrorInt": return KeyError(int(j["m"]))      # str() of it is the digits, its args[0] is NOT a string
+        return cls() if j.get("noargs") else cls(j["m"])
     if "n" in j:
         import tartiflette.language.ast as A
         return getattr(A, j["n"])(value=dec(j["v"], undef))
